@@ -9,6 +9,8 @@ From Coq Require Import Reals List QArith Qminmax.
 From Coquelicot Require Import Coquelicot.
 From IT Require Import RealModel.Acquisition Model.Optimiser
                        Proofs.AcquisitionProofs Proofs.GaussianProofs Proofs.OptimiserProofs.
+From IT Require Import RealModel.AcquisitionConfig Proofs.AcquisitionConfigProofs
+                       Model.OptimiserWorld Proofs.OptimiserWorldProofs.
 Import ListNotations.
 Open Scope R_scope.
 
@@ -64,6 +66,23 @@ Theorem C18_maxvar_gradient : forall (s2 : R -> R) (x ds2 : R),
   mv_call (sqrt (s2 x)) = s2 x /\ mv_opt_func (sqrt (s2 x)) = (- s2 x)%R.
 Proof. exact maxvar_gradient. Qed.
 
+(* ---- configuration: the kappa the caller passes is the kappa that is used, for EVERY
+   value -- in particular 0 (pure exploitation: UCB = predictive mean); 2 only when the
+   argument is omitted.  The `kappa or 2.0` idiom is refuted at 0. ---- *)
+Theorem C18_ucb_configuration :
+  (forall k m s, ucb_call (ucb_kappa (Some k)) m s = m + k * s /\
+                 ucb_opt_func (ucb_kappa (Some k)) m s = - (m + k * s)) /\
+  (forall m s, ucb_call (ucb_kappa None) m s = m + 2 * s) /\
+  (forall m s dmu dvar, ucb_call (ucb_kappa (Some 0)) m s = m /\
+                        ucb_opt_func (ucb_kappa (Some 0)) m s = - m /\
+                        ucb_opt_grad (ucb_kappa (Some 0)) s dmu dvar = - dmu).
+Proof. exact ucb_config_spec. Qed.
+
+Theorem C18_ucb_falsy_default_refuted :
+  exists m s, 0 < s /\
+    ucb_call (ucb_kappa_falsy (Some 0)) m s <> ucb_call (ucb_kappa (Some 0)) m s.
+Proof. exact ucb_falsy_refuted. Qed.
+
 Close Scope R_scope.
 Open Scope Q_scope.
 (* ---- start points of the multi-start search lie in the search box ---- *)
@@ -110,7 +129,63 @@ Theorem C18_resize_refuted :
   (exists d nx r, size nx = d /\ new_x_pinned d nx = Some r /\ shape (snd r) <> shape nx).
 Proof. exact (conj init_x_pinned_refuted new_x_pinned_refuted). Qed.
 
+(* ---- several optimisers alive in one process (every interleaving of constructions,
+   propose and add calls): each optimiser's data are the result of ITS OWN evaluations ... ---- *)
+Theorem C18_world_data_own : forall ops w w',
+  wrun w ops = Some w' ->
+  forall i o, nth_error (w_opts w) i = Some o ->
+  exists o', nth_error (w_opts w') i = Some o' /\ o_acq o' = o_acq o /\
+             add_all (o_state o) (adds_of i ops) = Some (o_state o').
+Proof. intros ops; exact (wrun_projection ops). Qed.
+
+(* ... also for an optimiser constructed in the middle of the history ... *)
+Theorem C18_world_data_own_new : forall pre a x y e post w w',
+  wrun w (pre ++ W_new a x y e :: post) = Some w' ->
+  exists w1, wrun w pre = Some w1 /\
+  exists o', nth_error (w_opts w') (length (w_opts w1)) = Some o' /\
+             add_all (init_state x y e) (adds_of (length (w_opts w1)) post) = Some (o_state o').
+Proof. exact wrun_projection_new. Qed.
+
+(* ... and, as long as the CALLER does not hand one acquisition object to two optimisers,
+   the acquisition object of every optimiser holds that optimiser's own incumbent (the max
+   of its own y), points to its own current regressor, and is held by no other optimiser.
+   Histories that use only the default or a class never share (second part). *)
+Theorem C18_world_acquisition_own : forall ops w',
+  unshared_run empty_world ops -> wrun empty_world ops = Some w' ->
+  forall i o, nth_error (w_opts w') i = Some o ->
+    nth_error (w_heap w') (o_acq o)
+      = Some (Some (list_max (st_y (o_state o)), i, length (st_y (o_state o)))) /\
+    (forall j oj, nth_error (w_opts w') j = Some oj -> o_acq oj = o_acq o -> j = i).
+Proof. exact world_acquisition_own. Qed.
+
+Theorem C18_world_defaults_unshared : forall ops w,
+  no_instances ops -> unshared_run w ops.
+Proof. exact no_instances_unshared. Qed.
+
+Theorem C18_world_propose_pure : forall w i w1, wstep w (W_propose i) = Some w1 -> w1 = w.
+Proof. exact wstep_propose. Qed.
+
+(* a default that is ONE instance made at definition time breaks it *)
+Theorem C18_world_shared_default_refuted :
+  exists ops w', no_instances ops /\ wrun_shared shared_world ops = Some w' /\
+  exists i o, nth_error (w_opts w') i = Some o /\
+              nth_error (w_heap w') (o_acq o) <> Some (Some (own_view i (o_state o))).
+Proof. exact shared_default_refuted. Qed.
+
 (* non-vacuity *)
+Example C18_example_world :
+  let ops := [W_new Acq_default [[0]] [1] None; W_alloc; W_new (Acq_instance 1) [[5]] [7] None;
+              W_add 0 [1#2] 3 None; W_propose 1] in
+  unshared_run empty_world ops /\
+  exists w', wrun empty_world ops = Some w' /\
+    map (fun o => st_y (o_state o)) (w_opts w') = [[1; 3]; [7]] /\
+    w_heap w' = [Some (3, 0%nat, 2%nat); Some (7, 1%nat, 1%nat)].
+Proof.
+  cbv zeta. split.
+  - simpl. repeat split; auto. intros [H | []]; discriminate H.
+  - eexists. split; [vm_compute; reflexivity | ]. split; reflexivity.
+Qed.
+
 Example C18_example_add :
   let st := init_state [[1#2]; [3]] [2; 5] None in
   exists st', add_evaluation st [7#4] 4 None = Some st' /\
@@ -136,3 +211,11 @@ Print Assumptions C18_add_evaluation_spec.
 Print Assumptions C18_add_all_spec.
 Print Assumptions C18_caller_arrays_unchanged.
 Print Assumptions C18_resize_refuted.
+Print Assumptions C18_ucb_configuration.
+Print Assumptions C18_ucb_falsy_default_refuted.
+Print Assumptions C18_world_data_own.
+Print Assumptions C18_world_data_own_new.
+Print Assumptions C18_world_acquisition_own.
+Print Assumptions C18_world_defaults_unshared.
+Print Assumptions C18_world_propose_pure.
+Print Assumptions C18_world_shared_default_refuted.
